@@ -119,7 +119,7 @@ func (a *addrRecorder) Report(r g.Report) {
 func runC04(c *Ctx) {
 	n := int64(40000)
 	if c.Thorough() {
-		n = 3000000
+		n = 1500000
 	}
 	c.Cases(n, func(idx int64, r *Rng) {
 		k := &c04Case{}
